@@ -13,6 +13,8 @@ def run(tier, seed):
     specs = leaf.specs(("read", "write", "roundtrip"), tier)
     specs += [("contracts.tables", "make_table", ("names",)), ("contracts.tables", "make_table", ("endianness",))]
     specs += leaf.array_specs(tier)
+    # the call forms T(x), T.read, T.reads, cs.read on buffers and streams decode in the current byte order too
+    specs += [("contracts.dispatch", "make_dispatch", (w,)) for w in ("forms", "forms:>", "forms:!")]
     from contracts import lemmas
 
     specs += lemmas.specs(tier)
